@@ -31,7 +31,7 @@ def msgTable : List Msg := [
     fields := [("target", .raw 8 16), ("dest", .raw 24 16)] }
 ]
 
-def lookupMsg (t c : Nat) : Option Msg := msgTable.find? fun m => m.type = t ∧ c = 0
+def lookupMsg (t c : Nat) : Option Msg := msgTable.find? fun m => t = m.type ∧ c = 0
 
 /-- result of splitting an NDP message (`m` = whole ICMPv6 message, at least 8 bytes):
     too short for the fixed part, or fields + option area window. -/
@@ -66,7 +66,7 @@ def optTable : List OptFmt := [
 
 /-- format of an option type; unknown types are carried raw (type + data behind the 2 byte header). -/
 def optFmt (t : Nat) : OptFmt :=
-  match optTable.find? fun f => f.type = t with
+  match optTable.find? fun f => t = f.type with
   | some f => f
   | none => { type := t, kind := "Unknown", units := none, fields := [("type", .u8 0), ("data", .tail 2)] }
 
